@@ -12,11 +12,11 @@ fn set(v: &Value) -> BTreeSet<u32> {
     u32_list(v).into_iter().collect()
 }
 
-pub fn replay_line(st: &mut Stats, line: &Value) {
+pub fn replay_line(st: &mut Stats, prop: &str, line: &Value) {
     st.cases += 1;
     st.evaluations += 1;
     let (Ok(l), Ok(r)) = (from_bytes(&bytes_of(&line["lbytes"])), from_bytes(&bytes_of(&line["rbytes"]))) else {
-        st.violations.push(Violation { property: "EXTRA".into(), what: "cannot load ontologies for compare".into(), replay: json!({"cmd": "replay-compare", "property": "EXTRA", "line": line, "diffs": []}) });
+        st.violations.push(Violation { property: prop.to_string(), what: "cannot load ontologies for compare".into(), replay: json!({"cmd": "replay-compare", "property": prop, "line": line, "diffs": []}) });
         return;
     };
     let want = &line["cmp"];
@@ -106,7 +106,7 @@ pub fn replay_line(st: &mut Stats, line: &Value) {
         let mut l2 = line.clone();
         l2["lbytes"] = json!(arr(&line["lbytes"]).len());
         l2["rbytes"] = json!(arr(&line["rbytes"]).len());
-        st.violations.push(Violation { property: "EXTRA".into(), what: d[0].clone(), replay: json!({"cmd": "replay-compare", "property": "EXTRA", "line": l2, "diffs": d}) });
+        st.violations.push(Violation { property: prop.to_string(), what: d[0].clone(), replay: json!({"cmd": "replay-compare", "property": prop, "line": l2, "diffs": d}) });
     }
 }
 
@@ -118,9 +118,10 @@ pub fn run(args: &Args) {
         eprintln!("no REPLAY lines");
         std::process::exit(2);
     }
+    let prop = args.get("prop").unwrap_or("EXTRA").to_string();
     let mut st = Stats::default();
     for l in &lines {
-        guard_case(&mut st, "EXTRA", "replay-compare", l, |st| replay_line(st, l));
+        guard_case(&mut st, &prop, "replay-compare", l, |st| replay_line(st, &prop, l));
     }
     finish(st, args.req("out"), args.req("replay-dir"), json!({"lines": lines.len()}));
 }
